@@ -129,25 +129,79 @@ def _fill(det, level=500.0):
     det.time = 1.0
 
 
+def _V(label, typ, kwargs, shape=(4, 5)):
+    return {"label": label, "type": typ, "kwargs": kwargs, "shape": shape}
+
+
+_CG, _CM, _PC, _CC = "pyxel.models.charge_generation.", "pyxel.models.charge_measurement.", "pyxel.models.photon_collection.", "pyxel.models.charge_collection."
+_NG_NOISE = [{"ktc_bias_noise": {"ktc_noise": 1, "bias_offset": 2, "bias_amp": 2}}, {"white_read_noise": {"rd_noise": 1, "ref_pixel_noise_ratio": 2}},
+             {"corr_pink_noise": {"c_pink": 1.0}}, {"uncorr_pink_noise": {"u_pink": 1.0}}, {"acn_noise": {"acn": 1.0}}, {"pca_zero_noise": {"pca0_amp": 1.0}}]
+_COSMIX = {"simulation_mode": "cosmic_ray", "running_mode": "stepsize", "particle_type": "proton", "initial_energy": 100.0, "particles_per_second": 100.0,
+           "spectrum_file": "@proton_spectrum", "progressbar": False}
+# every model with a `seed` argument, each with the option combinations that take different random-number paths through it
 RECIPES = {
-    "pyxel.models.photon_collection.shot_noise.shot_noise": ("CCD", {"type": "poisson"}),
-    "pyxel.models.charge_generation.photoelectrons.simple_conversion": ("CCD", {"quantum_efficiency": 0.7}),
-    "pyxel.models.charge_generation.dark_current.dark_current": ("CCD", {"figure_of_merit": 1.0, "spatial_noise_factor": 0.4}),
-    "pyxel.models.charge_generation.simple_dark_current.simple_dark_current": ("CCD", {"dark_rate": 20.0}),
-    "pyxel.models.charge_generation.dark_current_rule07.dark_current_rule07": ("CMOS", {"cutoff_wavelength": 5.0, "spatial_noise_factor": 0.3}),
-    "pyxel.models.charge_generation.dark_current_saphira.dark_current_saphira": ("APD", {}),
-    "pyxel.models.charge_generation.dark_current_induced.radiation_induced_dark_current": ("CCD", {"depletion_volume": 64.0, "annealing_time": 0.1, "displacement_dose": 5.0e4, "shot_noise": True}),
-    "pyxel.models.charge_collection.fixed_pattern_noise.fixed_pattern_noise": ("CCD", {"fixed_pattern_noise_factor": 0.01}),
-    "pyxel.models.charge_measurement.readout_noise.output_node_noise": ("CCD", {"std_deviation": 1.0}),
-    "pyxel.models.charge_measurement.readout_noise.output_node_noise_cmos": ("CMOS", {"readout_noise": 1.0, "readout_noise_std": 2.0}),
-    "pyxel.models.charge_measurement.readout_noise.readout_noise_saphira": ("APD", {"roic_readout_noise": 0.15, "controller_noise": 0.1}),
-    "pyxel.models.charge_measurement.reset_noise.ktc_noise": ("CMOS", {"node_capacitance": 30.0e-15}),
-    "pyxel.models.charge_generation.photoelectrons.conversion_with_qe_map": ("CCD", {"filename": "@qe_map"}),
+    _PC + "shot_noise.shot_noise": [_V("poisson", "CCD", {"type": "poisson"}), _V("normal", "CCD", {"type": "normal"})],
+    _CG + "photoelectrons.simple_conversion": [_V("binomial", "CCD", {"quantum_efficiency": 0.7}), _V("no_sampling", "CCD", {"quantum_efficiency": 0.7, "binomial_sampling": False})],
+    _CG + "dark_current.dark_current": [_V("spatial+temporal", "CCD", {"figure_of_merit": 1.0, "spatial_noise_factor": 0.4}),
+                                        _V("spatial_only", "CCD", {"figure_of_merit": 1.0, "spatial_noise_factor": 0.4, "temporal_noise": False}),
+                                        _V("temporal_only", "CCD", {"figure_of_merit": 1.0})],
+    _CG + "simple_dark_current.simple_dark_current": [_V("default", "CCD", {"dark_rate": 20.0})],
+    _CG + "dark_current_rule07.dark_current_rule07": [_V("spatial+temporal", "CMOS", {"cutoff_wavelength": 5.0, "spatial_noise_factor": 0.3}),
+                                                      _V("spatial_only", "CMOS", {"cutoff_wavelength": 5.0, "spatial_noise_factor": 0.3, "temporal_noise": False})],
+    _CG + "dark_current_saphira.dark_current_saphira": [_V("default", "APD", {})],
+    _CG + "dark_current_induced.radiation_induced_dark_current": [
+        _V("shot_noise", "CCD", {"depletion_volume": 64.0, "annealing_time": 0.1, "displacement_dose": 5.0e4, "shot_noise": True}),
+        _V("no_shot_noise", "CCD", {"depletion_volume": 64.0, "annealing_time": 0.1, "displacement_dose": 5.0e4, "shot_noise": False})],
+    _CC + "fixed_pattern_noise.fixed_pattern_noise": [_V("factor", "CCD", {"fixed_pattern_noise_factor": 0.01})],
+    _CM + "readout_noise.output_node_noise": [_V("default", "CCD", {"std_deviation": 1.0})],
+    _CM + "readout_noise.output_node_noise_cmos": [_V("default", "CMOS", {"readout_noise": 1.0, "readout_noise_std": 2.0})],
+    _CM + "readout_noise.readout_noise_saphira": [_V("default", "APD", {"roic_readout_noise": 0.15, "controller_noise": 0.1}), _V("no_controller_noise", "APD", {"roic_readout_noise": 0.15})],
+    _CM + "reset_noise.ktc_noise": [_V("capacitance", "CMOS", {"node_capacitance": 30.0e-15})],
+    _CG + "photoelectrons.conversion_with_qe_map": [_V("binomial", "CCD", {"filename": "@qe_map"})],
+    _CG + "charge_deposition.charge_deposition": [
+        _V("normal_energies", "CCD", {"flux": 30, "stopping_power_curve": "@stopping"}, (10, 10)),
+        _V("spectrum_log", "CCD", {"flux": 30, "stopping_power_curve": "@stopping", "energy_spectrum": "@spectrum", "energy_spectrum_sampling": "log"}, (10, 10)),
+        _V("spectrum_linear", "CCD", {"flux": 30, "stopping_power_curve": "@stopping", "energy_spectrum": "@spectrum", "energy_spectrum_sampling": "linear"}, (10, 10)),
+        _V("orthogonal", "CCD", {"flux": 30, "stopping_power_curve": "@stopping", "particle_direction": "orthogonal"}, (10, 10))],
+    _CG + "charge_deposition.charge_deposition_in_mct": [
+        _V("normal_energies", "CMOS", {"flux": 30, "stopping_power_curve": "@stopping"}, (10, 10)),
+        _V("spectrum_log", "CMOS", {"flux": 30, "stopping_power_curve": "@stopping", "energy_spectrum": "@spectrum"}, (10, 10)),
+        _V("spectrum_linear_orthogonal", "CMOS", {"flux": 30, "stopping_power_curve": "@stopping", "energy_spectrum": "@spectrum", "energy_spectrum_sampling": "linear",
+                                                  "particle_direction": "orthogonal"}, (10, 10))],
+    _CG + "cosmix.cosmix.cosmix": [_V("random_angles_positions", "CCD", dict(_COSMIX), (8, 8)),
+                                   _V("fixed_angles_positions", "CCD", dict(_COSMIX, incident_angles=None, starting_position=None), (8, 8))],
+    _CM + "nghxrg.nghxrg.nghxrg": [_V("all_noise_sources", "CMOS", {"noise": _NG_NOISE}, (10, 15)),
+                                   _V("window", "CMOS", {"noise": _NG_NOISE[:2], "window_position": [2, 3], "window_size": [5, 6]}, (10, 15))],
 }
 
 
+def _materialise(kwargs, tmp):
+    """Replace @placeholders by files written into the case's scratch directory (or shipped with pyxel)."""
+    import pyxel
+
+    kw = dict(kwargs)
+    for k, v in list(kw.items()):
+        if v == "@qe_map":
+            np.save(tmp / "qe.npy", np.full((4, 5), 0.6))
+            kw[k] = str(tmp / "qe.npy")
+        elif v == "@stopping":
+            e = np.logspace(-3, 4, 60)
+            (tmp / "stopping.csv").write_text("\n".join(["MeV,MeV cm2/g"] + [f"{a:.6e},{b:.6e}" for a, b in zip(e, 500.0 / (1.0 + e) + 2.0)]) + "\n")
+            kw[k] = str(tmp / "stopping.csv")
+        elif v == "@spectrum":
+            en = np.logspace(-1, 3, 40)
+            np.savetxt(tmp / "spectrum.txt", np.column_stack([en, en ** -1.5]), header="MeV flux")
+            kw[k] = str(tmp / "spectrum.txt")
+        elif v == "@proton_spectrum":
+            from pathlib import Path
+
+            kw[k] = str(Path(pyxel.__file__).parent / "models" / "charge_generation" / "data" / "proton_L2_solarMax_11mm_Shielding.txt")
+    return kw
+
+
 def model_cases():
-    return [{"func": f, "seed": s, "k1": 11, "j1": 0, "k2": 99, "j2": 5} for f in discover_seeded() for s in (0, 12345, 2**32 - 1)]
+    return [{"func": f, "variant": v, "seed": s, "k1": 11, "j1": 0, "k2": 99, "j2": 5}
+            for f in discover_seeded() for v in range(len(RECIPES.get(f, [None]))) for s in (0, 12345, 2**32 - 1)]
 
 
 def body_models(case, rec):
@@ -159,17 +213,15 @@ def body_models(case, rec):
         rec.exclude(f"skipped_no_recipe:{name.rsplit('.', 1)[1]}")
         return
     rec.nt()
-    typ, kwargs = RECIPES[name]
-    kwargs = dict(kwargs)
+    var = RECIPES[name][case.get("variant", 0)]
+    typ, kwargs = var["type"], _materialise(var["kwargs"], rec.tmp)
     mod, fn = name.rsplit(".", 1)
+    rec.cls(f"variant:{fn}:{var['label']}")
     func = getattr(importlib.import_module(mod), fn)
-    spec = simple_spec(typ, row=4, col=5)
+    spec = simple_spec(typ, row=var["shape"][0], col=var["shape"][1])
     spec["environment"]["temperature"] = 300.0 if typ != "APD" else 80.0
     if typ == "APD":
         spec["characteristics"].update({"avalanche_gain": 10.0})
-    if kwargs.get("filename") == "@qe_map":
-        np.save(rec.tmp / "qe.npy", np.full((4, 5), 0.6))
-        kwargs["filename"] = str(rec.tmp / "qe.npy")
     outs, states = [], []
     for (k, j) in ((case["k1"], case["j1"]), (case["k2"], case["j2"])):
         det = build_detector(spec)
@@ -178,15 +230,24 @@ def body_models(case, rec):
         try:
             func(det, seed=case["seed"], **kwargs)
         except Exception as exc:  # noqa: BLE001
-            rec.fail(f"recipe_failed:{fn}", f"{exc!r}"[:300])
+            rec.fail(f"recipe_failed:{fn}:{var['label']}", f"{exc!r}"[:300])
             return
         after = np.random.get_state()
-        rec.check(_state_eq(before, after), f"seeded_model_leaks_into_global_state:{fn}", f"seed {case['seed']}")
-        outs.append(bucket_state(det))
-    for b in ("photon", "charge", "pixel", "signal"):
+        rec.check(_state_eq(before, after), f"seeded_model_leaks_into_global_state:{fn}", f"options {var['label']}, seed {case['seed']}")
+        try:
+            state = bucket_state(det)
+        except Exception:  # noqa: BLE001  (e.g. charge_deposition 'orthogonal' leaves an object-typed cluster table whose binning fails: not this property)
+            rec.exclude(f"charge_array_unreadable_after:{fn}:{var['label']}")
+            state = {"photon": None, "charge": None, "pixel": None, "signal": None}
+        outs.append(dict(state, cluster_table=np.array([[repr(x) for x in row] for row in det.charge.frame.to_numpy()], dtype=object)))
+    for b in ("photon", "charge", "pixel", "signal", "cluster_table"):
         a, c = outs[0][b], outs[1][b]
-        same = (a is None and c is None) or (a is not None and c is not None and np.array_equal(np.asarray(a, dtype=float), np.asarray(c, dtype=float), equal_nan=True))
-        rec.check(same, f"seeded_model_not_reproducible:{fn}", f"{b} differs between two calls with seed {case['seed']}")
+        if b == "cluster_table":
+            same = a.shape == c.shape and bool(np.all(a == c))
+        else:
+            same = (a is None and c is None) or (a is not None and c is not None and np.shape(a) == np.shape(c)
+                                                 and np.array_equal(np.asarray(a, dtype=float), np.asarray(c, dtype=float), equal_nan=True))
+        rec.check(same, f"seeded_model_not_reproducible:{fn}", f"options {var['label']}: {b} differs between two calls with seed {case['seed']}")
     # and it really is stochastic: an unseeded call from another state gives something else (vacuity guard, not a verdict)
     det = build_detector(spec)
     _fill(det)
@@ -194,8 +255,8 @@ def body_models(case, rec):
     try:
         func(det, **kwargs)
         u = bucket_state(det)
-        if all(np.array_equal(np.asarray(u[b], dtype=float), np.asarray(outs[0][b], dtype=float), equal_nan=True) for b in ("photon", "charge", "pixel", "signal") if u[b] is not None):
-            rec.cls(f"vacuous:not_stochastic:{fn}")
+        if all(outs[0][b] is not None and np.array_equal(np.asarray(u[b], dtype=float), np.asarray(outs[0][b], dtype=float), equal_nan=True) for b in ("photon", "charge", "pixel", "signal") if u[b] is not None):
+            rec.cls(f"vacuous:not_stochastic:{fn}:{var['label']}")
     except Exception:  # noqa: BLE001
         pass
 
